@@ -28,6 +28,9 @@ checks = {
  "C15": ("E1", E1,
    "All schedules (pre-emption bound 2/3, delay bound 1/2 for the 8-9 thread coroutine scenarios; early timer firing as a deviation) of one closing thread against 1-3 users of the same object: Handler.Post, Actor.Send (also Close from inside the effect), BufferedChannelQueue Offer/Put/Take/TakeWithTimeout/Poll/GetChannel-receive/Count with the loader mid-pass, coroutine YieldFrom / YieldRef reply against a finishing coroutine (incl. more pending requests than the request buffer), WorkerPool Schedule with idle and busy workers. No goroutine may panic, the pool panic handler must stay silent, nothing may block forever, calls begun after Close returned must report it or be dropped.",
    "Bounded users/pre-emptions; SC interleavings; vsched runtime model; virtual time.", "DESIGN.md §2, §5 C15"),
+ "C09": ("E1", E1,
+   "All schedules (pre-emption bound 1 for single-submitter scripts, delay bound 2/3 for two submitters; early timer firing as a deviation; happens-before state cache) of a DefaultWorkerPool over a BufferedChannelQueue for 3-6 configurations (queue 1-2+0-2, max 1-2, stand-by 0-2, batch 0-1) x 8-10 submission scripts mixing plain, slow and panicking jobs through Schedule / ScheduleWithTimeout / Invoke, optionally closing the pool at the end: per job run count <= 1 and == 1 at final quiescence when accepted and the pool is open, rejected jobs never run, running gauge <= workerSizeMaximum, panic handler exactly once per panicking job and for nothing else, documented error codes.",
+   "Bounded jobs/submitters/deviations; idle timers 1 h (longer than the run); virtual time with a 300 ms horizon; SC interleavings; vsched runtime model.", "DESIGN.md §2, §5 C09"),
 }
 
 not_yet = "check not built yet in this round (see DESIGN.md §9 build order); no claim made"
